@@ -16,9 +16,10 @@ VERIF = os.path.dirname(os.path.dirname(os.path.abspath(__file__)))
 REPO = os.environ.get("RBACX_REPO", "/repo")
 RECORD = os.path.join(VERIF, "anchors.json")
 
-EXTRA = {"C07": ["src/rbacx/core/helpers.py"], "C01": ["src/rbacx/core/helpers.py"], "C11": ["src/rbacx/core/helpers.py"],
+EXTRA = {"C01": ["src/rbacx/core/helpers.py"], "C11": ["src/rbacx/core/helpers.py"],
          "C18": ["src/rbacx/core/helpers.py"], "C20": ["src/rbacx/core/helpers.py"], "C03": ["src/rbacx/core/policyset.py"],
-         "C05": ["src/rbacx/core/policyset.py"], "C19": ["src/rbacx/core/engine.py"]}
+         "C05": ["src/rbacx/core/policyset.py"], "C19": ["src/rbacx/core/engine.py"], "C13": ["src/rbacx/core/compiler.py"], "C04": ["src/rbacx/core/compiler.py", "src/rbacx/core/engine.py"],
+         "C02": ["src/rbacx/core/compiler.py"], "C07": ["src/rbacx/core/helpers.py"], "C08": ["src/rbacx/core/roles.py"], "C12": [], "C15": []}
 
 
 def files_of(prop: str) -> list[str]:
